@@ -8,13 +8,12 @@ import vcommon as V
 
 META = dict(
     text="Lean 4 theorems (Props/C12.lean) prove for the models of the printer and of the reader: (1) read_print_data_partial, by structural induction over any nesting depth and length: for every value built from 64-bit integers, uint64, finite floats, characters, strings, booleans, symbols, lists (also with a dotted tail) and arrays, the printed text, delivered whole or in any pieces to a parser with any history, is accepted and yields exactly that value; it is assembled from string_literal_roundtrip / char_literal_roundtrip / escapes_inverse (what strconv.Quote and QuoteRune write for ANY rune - all 0x110000 code points through the regenerated IsPrint table - is read back as that rune by the lexer's escape table, including \\a \\b \\f \\v \\xHH \\uHHHH \\UHHHHHHHH), print_int_reads_back and print_uint_reads_back (every 64-bit numeral is a decimal/uint64 token converting back to the same number), print_float_reads_back (under an explicit law on FormatFloat/ParseFloat the printed float is one atom, a FLOAT token and never an integer token, and converts back with the same Scientific flag), the lexing of the whole text (every separator, bracket and the dotted-tail backslash), lazy = eager lexing for every parser program, and the parse of the token list with the model's fuel bound; (2) literal_digits_positional and literal_int_tokens: ParseInt/ParseUint as used by the parser compute the positional value of the digits in every base, so hex, octal, binary and decimal-with-underscores tokens denote exactly what is written or are refused when out of range. The models are tied to zygo/lexer.go, parser.go, expressions.go, hashutils.go by regenerated tables (regexp sources, DecodeAtom cascade order, escape table, hexEscapeLen, the strconv call of every literal token and of every printer method) and by the rt channel, which prints with the real code, reads back with the real parser and evaluates with the real interpreter: impl vs spec (the value itself; Spec.require for literal spellings, an independent positional/bisection specification checked against math/big) and impl vs model, over every code point of the first planes, every IsPrint transition, integer and float grids over all binades, every pair of atoms in every container, every spelling up to length 4 (thorough 5). Unit tests compare about sixty spellings and a handful of printed strings.",
-    note="Trusted: Lean kernel; axioms propext/Classical.choice/Quot.sound; strconv.FormatFloat/ParseFloat enter as the hypothesis FloatLaw (shape of the text + parse-back), sampled over all binades on every run, not proved; ParseFloat's rounding is re-implemented (Model/NumLit) and compared bit for bit with strconv, math/big and Spec.nearestF64; regexp recognisers are hand-written for the regenerated source strings; the models are hand-written (Model/Lexer+Parser shared with C13, PrintData, EvalData) and tied by differential testing. Stated in full but NOT proved (compared on every generated input instead): ReadPrintData (fails today for nil: known finding), LiteralValue for every spelling (the cascade classification of arbitrary spellings, signs, fraction/exponent literals), EvalPrintJsonlike (hashes/arrays read back by evaluation). The symbol domain of the theorem is 'names DecodeAtom classifies as a symbol and that hold no rune special to the lexer' (symOK), not an independent grammar. Holds for the tree with fixes C12-01..04 applied; known findings: nil reads back as the symbol nil, a lone +/- symbol at top level, -.5 is lexed as - and .5.",
+    note="Trusted: Lean kernel; axioms propext/Classical.choice/Quot.sound; strconv.FormatFloat/ParseFloat enter as the hypothesis FloatLaw (shape of the text + parse-back), sampled over all binades on every run, not proved; ParseFloat's rounding is re-implemented (Model/NumLit) and compared bit for bit with strconv, math/big and Spec.nearestF64; regexp recognisers are hand-written for the regenerated source strings; the models are hand-written (Model/Lexer+Parser shared with C13, PrintData, EvalData) and tied by differential testing. Stated in full but NOT proved (compared on every generated input instead): ReadPrintData (fails today for nil: known finding), LiteralValue for every spelling (the cascade classification of arbitrary spellings, signs, fraction/exponent literals), EvalPrintJsonlike (hashes/arrays read back by evaluation). The symbol domain of the theorem is 'names DecodeAtom classifies as a symbol and that hold no rune special to the lexer' (symOK), not an independent grammar. Holds for the tree with fixes C12-01..05 and C13-02 applied; known finding: nil reads back as the symbol nil.",
     technique="Lean 4 proof over executable models of the printer, the lexer/parser and the literal conversion + regenerated tables + model/implementation/specification correspondence (channel rt) with math/big as second judge of literal values",
     design_ref="DESIGN.md §7 C12",
 )
 
 NIL_SYM = "y 110.105.108"
-DOTFRAC = re.compile(r"^45\.46\.(4[89]|5[0-7])(\.|$)")   # -.D…
 
 
 def _nil_as_symbol(spec):
@@ -77,8 +76,6 @@ def run(rep):
                 spec = impl if impl in ("err", "nonnum") else spec[1:]
             else:
                 verdicts["must"] += 1
-                if impl != spec and impl == "nonnum" and DOTFRAC.match(spelling):
-                    keys[op] = "rt l 45.46.53"
         elif kind == "r" and spec != "-" and impl != spec and _nil_as_symbol(spec) == impl:
             keys[op] = "rt r n"
         out.append((op, impl, model, spec))
